@@ -37,7 +37,7 @@ fn par8_repeat_h<const N: usize>(cmax: u32) {
     di.send_repeated_pixel(p, count).unwrap();
     let nrep = N as u32 * count;
     let total = 1 + na as u32 + nrep;
-    assert!(pw.edges == total, "[C07] one write strobe per word: instruction, parameters, pixel words");
+    assert!(pw.edges == total, "[C07][C08] one write strobe per word: instruction, parameters, pixel words (pixel data is a whole number of pixels, no more than asked for)");
     assert!(pw.dc_low_edges == 1 && pw.dc, "[C07] DC low only at the instruction's edge");
     if pw.probe_hit {
         let j = pw.probe_idx;
@@ -86,7 +86,7 @@ fn par8_stream_h<const N: usize>() {
     kani::assume(nq <= 2);
     di.send_pixels(Src::<u8, N, 2> { px: q, n: nq, k: 0 }).unwrap();
     let total = 1 + na as u32 + (N * nq) as u32;
-    assert!(pw.edges == total, "[C07] one write strobe per word: instruction, parameters, pixel words");
+    assert!(pw.edges == total, "[C07][C08] one write strobe per word: instruction, parameters, pixel words (pixel data is a whole number of pixels, no more than asked for)");
     assert!(pw.dc_low_edges == 1 && pw.dc, "[C07] DC low only at the instruction's edge");
     if pw.probe_hit {
         let j = pw.probe_idx;
@@ -219,7 +219,7 @@ macro_rules! h {
         }
     };
 }
-//@ props=C07,C05 inst="ParallelInterface<Generic8BitBus>: command + send_repeated_pixel, 2 words per pixel" bounds="0..=2 parameters, repeat count 0..=3 (symbolic pixel: strobe-only and general path); symbolic initial pin levels; symbolic strobe index" timeout=900 mem=8
+//@ props=C07,C05,C08 inst="ParallelInterface<Generic8BitBus>: command + send_repeated_pixel, 2 words per pixel" bounds="0..=2 parameters, repeat count 0..=3 (symbolic pixel: strobe-only and general path); symbolic initial pin levels; symbolic strobe index" timeout=900 mem=8
 h!(c07_par8_repeat_n2, 8, par8_repeat_h::<2>(3));
 //@ props=C07,C05 inst="ParallelInterface<Generic8BitBus>: command + send_repeated_pixel, 3 words per pixel" bounds="0..=2 parameters, repeat count 0..=1 (strobe-only and general path)" timeout=1200 mem=8
 h!(c07_par8_repeat_n3, 6, par8_repeat_h::<3>(1));
